@@ -60,4 +60,23 @@ theorem opFirst_without_operation_group (gs : List Group) (h : gs.any (fun g => 
     opFirst gs = ⟨.OperationAttributes, []⟩ :: gs :=
   opFirst_none gs h
 
+/-- The encoding is unambiguous: two (message, payload) pairs with the same bytes – under any two iteration orders of
+    their maps – are the same header, the same groups and the same payload.  In particular no encoded message is a
+    proper prefix of another one followed by document data, so the attribute/payload boundary is determined by the
+    bytes alone. -/
+theorem encode_injective (h h' : Header) (gs gs' L L' : List Group) (p p' : Bytes)
+    (hwf : wfMsg gs = true) (hwf' : wfMsg gs' = true) (hL : ListingOf gs L) (hL' : ListingOf gs' L')
+    (he : encodeMsg h L ++ p = encodeMsg h' L' ++ p') : h = h' ∧ gs = gs' ∧ p = p' := by
+  have a := roundtrip h gs L p hwf hL
+  have b := roundtrip h' gs' L' p' hwf' hL'
+  rw [he, b] at a
+  simp only [Outcome.ok.injEq, Prod.mk.injEq] at a
+  exact ⟨a.1.1.symm, a.1.2.symm, a.2.symm⟩
+
+/-- the iteration order of the maps never changes what the bytes mean: two listings of one message parse alike -/
+theorem listing_irrelevant (h : Header) (gs L L' : List Group) (p : Bytes) (hwf : wfMsg gs = true)
+    (hL : ListingOf gs L) (hL' : ListingOf gs L') :
+    parseFlat (encodeMsg h L ++ p) = parseFlat (encodeMsg h L' ++ p) := by
+  rw [roundtrip h gs L p hwf hL, roundtrip h gs L' p hwf hL']
+
 end Ipp.Props.C01
